@@ -18,6 +18,8 @@ package main
 import (
 	"fmt"
 	"go/types"
+	"os"
+	"os/exec"
 	"sort"
 	"strings"
 
@@ -73,7 +75,28 @@ func isPkgInit(fn *ssa.Function) bool {
 	return false
 }
 
+// leanLemma: the parse-back lemma of C05 is a Lean 4 development over the specification of the quoting
+// (not over Go code); it is re-checked by `lean` on every run of the C05 check.
+func leanLemma() []extraCheck {
+	f := "/verif/lean/CsvRoundTrip.lean"
+	src, err := os.ReadFile(f)
+	if err != nil {
+		return []extraCheck{{Name: "lean:CsvRoundTrip", OK: false, What: "Lean file missing: " + f}}
+	}
+	if strings.Contains(string(src), "sorry") || strings.Contains(string(src), "axiom ") {
+		return []extraCheck{{Name: "lean:CsvRoundTrip", OK: false, What: "the Lean development contains sorry/axiom"}}
+	}
+	cmd := exec.Command("lean", f)
+	out, err := cmd.CombinedOutput()
+	ok := err == nil && !strings.Contains(string(out), "error")
+	return []extraCheck{{Name: "lean:CsvRoundTrip", OK: ok, Detail: string(out),
+		What: "Lean 4 accepts read_quote / read_record / read_file: a strict RFC 4180 reader gets back exactly the fields, records and rows from the all-fields-quoted text (" + f + ")"}}
+}
+
 func (w *World) extraChecks(prop string) []extraCheck {
+	if prop == "C05" {
+		return leanLemma()
+	}
 	if prop != "C16" && prop != "C17" {
 		return nil
 	}
